@@ -73,6 +73,13 @@ def _block(gen, ep_stub, kind=None):
         pairs.append((n, v))
     if rng.random() < 0.1:
         pairs.append((rng.choice([b'', b'X-Upper', b'connection', b' sp', b'te', b':late']), rng.choice([b'', b'x', b'\xff\xfe', b'gzip'])))
+    if rng.random() < 0.08:
+        pairs.append((rng.choice([b'1', b'_', b'-', b'2-1', b'x1']), b'v'))
+    if kind == 'request' and rng.random() < 0.06:
+        pairs = [(n, v) for n, v in pairs if n not in (b':authority', b'host')]
+        a_, h_ = rng.choice([(b'', b'evil.example'), (b'example.com', b''), (b'a', b'a')])
+        pairs.insert(0, (b':authority', a_))
+        pairs.append((b'host', h_))
     if rng.random() < 0.05:
         pairs.append((b'content-length', rng.choice([b'0', b'5', b'abc', b'-1', b'99999999999999999999'])))
     enc = RefEncoder()
@@ -117,6 +124,47 @@ def draw(gen):
         if tame:
             return None
         frames = []
+    r_special = rng.random()
+    if r_special < 0.03:
+        # CONTINUATION flood: a header block cut into very many (also empty) fragments, in one go
+        sid = vt.hi_peer + 2 if (vt.hi_peer and victim_is_server) else (1 if victim_is_server else _sid(gen, vt, victim_is_server))
+        n = rng.choice([3, 9, 65, 66, 70, 300, 1200])
+        frag, _ = _block(gen, stub, 'request' if victim_is_server else 'response')
+        fr = [C.mk_headers(sid, frag[:1], rng.random() < 0.5, False)]
+        rest = frag[1:]
+        empty = rng.random() < 0.6
+        for i in range(n):
+            last = (i == n - 1)
+            piece = b'' if (empty and not last) else rest[:1]
+            if not (empty and not last):
+                rest = rest[1:] if not last else b''
+            if last:
+                piece = (piece or b'') + rest
+            fr.append(C.mk_continuation(sid, piece, last and rng.random() < 0.8))
+        raw = b''.join(f.serialize() for f in fr)
+        return {'ev': 'inject', 'dir': d, 'pos': pos, 'bytes': raw}
+    if 0.07 <= r_special < 0.07 + gen.P.get('adv_ping_flood', 0.01) and not vt.closed:
+        n = rng.choice([2, 3, 10, 63, 64, 65, 66, 129, 400])
+        raw = b''.join(C.mk_ping(i.to_bytes(4, 'big') + b'fld' + bytes([rng.randrange(256)]), rng.random() < 0.1).serialize()
+                       for i in range(n))
+        return {'ev': 'inject', 'dir': d, 'pos': pos, 'bytes': raw}
+    if r_special < 0.07 and not vt.closed:
+        # window arithmetic at the limit: lift one stream's send window to exactly 2^31-1, then (sometimes) raise
+        # INITIAL_WINDOW_SIZE by one - the history-dependent overflow clause
+        live = [s for s in vt.streams.values() if s.state in ('open', 'hcR', 'hcL', 'rsvL', 'rsvR')]
+        if live:
+            st = rng.choice(live)
+            fr = []
+            room = MAXID - st.send_win
+            if room >= 1:
+                fr.append(C.mk_window_update(st.sid, room))
+            if rng.random() < 0.7:
+                fr.append(C.mk_settings([(C.S_INITIAL_WINDOW_SIZE, min(vt.peer[C.S_INITIAL_WINDOW_SIZE] + rng.choice([1, 1, 100]), MAXID))]))
+            if fr:
+                raw = b''.join(f.serialize() for f in fr)
+                if spans:
+                    pos = spans[0][0]
+                return {'ev': 'inject', 'dir': d, 'pos': pos, 'bytes': raw}
     t = rng.choice([C.DATA, C.DATA, C.HEADERS, C.HEADERS, C.HEADERS, C.PRIORITY, C.RST_STREAM, C.SETTINGS,
                     C.PUSH_PROMISE, C.PING, C.GOAWAY, C.WINDOW_UPDATE, C.WINDOW_UPDATE, C.CONTINUATION,
                     C.ALTSVC, rng.choice([11, 12, 0x20, 0xff])])
@@ -367,7 +415,7 @@ def long_frames(gen, vt, victim_is_server, stub):
         return [C.mk_priority(sid, 0, True, 7)]
     if k == 5:
         return [C.mk(rng.choice([11, 12, 0x42, 0xfe]), rng.randrange(256), rng.choice([0, sid]), b'x' * rng.randrange(0, 30))]
-    if k == 6:
+    if k == 6 or (k == 5 and gen.P.get('long_pings')):
         return [C.mk_ping(bytes(rng.randrange(256) for _ in range(8)), rng.random() < 0.3)]
     if not vt.any_headers_recv and not vt.any_headers_sent:
         return [C.mk_ping(b'12345678', False)]
